@@ -48,6 +48,7 @@ struct HConfig {
   unsigned max_ops = 12;           // upper bound on generated history length (rapidcheck size)
   bool leak_check = true;          // __lsan_do_recoverable_leak_check() at the end of each case
   unsigned cpu_limit_s = 20;       // CPU seconds per case before "timeout"
+  unsigned wall_limit_s = 0;       // wall-clock seconds per case (0 = none); needed when threads can block each other
   bool hang_is_violation = false;  // properties that include termination
   bool warm_xml = true;            // do one XML export+import in the parent before forking
 };
